@@ -6,7 +6,7 @@ from factbase import op_place, op_const
 ADAPTERS = (r"Clone>?::clone$|::clone$|::inner$|Postfix::reference$|::reference$|::values$|::iter$|Deref>?::deref$|"
             r"AsRef<.*>>?::as_ref$|Borrow<.*>>?::borrow$|WrappedMergedSelectionMap::new$|::copied$|::cloned$|"
             r"IntoIterator>?::into_iter$|::as_ref$|::as_slice$|Iterator>?::collect$|::to_owned$|::to_vec$|"
-            r"Option::<T>::(expect|unwrap)$|Result::<T, E>::(expect|unwrap)$")
+            r"Option::<T>::(expect|unwrap)$|Result::<T, E>::(expect|unwrap)$|::as_str$|::as_bytes$|::as_mut$|DerefMut>?::deref_mut$")
 
 
 def producer(fn, local, depth=40):
